@@ -465,7 +465,7 @@ impl<T> Parser<T> for ParseCommand<T> {
                         Ok(ok)
                     }
                     Err(err) => {
-                        let orig_scope = args.scope();
+                        let orig_scope = orig_args.scope();
                         if let Some(narrow_scope) = args.adjacent_scope(&orig_args) {
                             orig_args.set_scope(narrow_scope);
                             if let Ok(res) = self.subparser.run_subparser(&mut orig_args) {
